@@ -13,6 +13,7 @@
 import NiftyVerif.Lemmas.Coo
 import NiftyVerif.Lemmas.LinOps
 import NiftyVerif.Lemmas.LinOpsWf
+import NiftyVerif.Lemmas.Transpose
 import NiftyVerif.Lemmas.CQ
 
 namespace NiftyVerif.C02
@@ -450,7 +451,31 @@ theorem ofRows_adjoint {cj : K → K} (hc : IsConj cj) (rows cols : Nat) (f : Na
     inner cj rows y (apply (ofRows rows cols f) x) = inner cj cols (applyAdj cj (ofRows rows cols f) y) x :=
   Coo.coo_adjoint hc (ofRows rows cols f) (ofRows_wf rows cols f h) x y
 
-/-- TransposeOperator on two sub-domains of sizes `a`, `b` (indices (1,0)): a permutation, adjoint = inverse.
+/-- **TransposeOperator, any number of sub-domains**: for every permutation `perm` of the sub-domain indices the
+    operator is a permutation matrix — well-formed, and its adjoint is its inverse on both sides (so the four
+    modes TIMES / ADJOINT_INVERSE and ADJOINT / INVERSE coincide pairwise, as the code advertises) -/
+theorem transpose_inverse {cj : K → K} (hc1 : cj 1 = 1) (sizes perm : List Nat)
+    (hperm : perm.Perm (List.range sizes.length)) (x : Nat → K) (i : Nat) (hi : i < prodL sizes) :
+    (transpose sizes perm : Coo K).wf = true ∧
+    applyAdj cj (transpose sizes perm) (apply (transpose sizes perm) x) i = x i ∧
+    apply (transpose sizes perm) (applyAdj cj (transpose sizes perm) x) i = x i := by
+  rw [transpose_eq_gather, prodL_tsizes hperm]
+  have hsrc : ∀ r, r < prodL sizes → tSrc sizes perm r < prodL sizes := fun r hr =>
+    tSrc_lt hperm r (by rw [prodL_tsizes hperm]; exact hr)
+  have hinvlt : ∀ c, c < prodL sizes → tInv sizes perm c < prodL sizes := fun c hc => by
+    have := tInv_lt hperm c hc; rwa [prodL_tsizes hperm] at this
+  have hinv : ∀ r, r < prodL sizes → ∀ c, c < prodL sizes → (tSrc sizes perm r = c ↔ r = tInv sizes perm c) := by
+    intro r hr c hc
+    constructor
+    · intro h; rw [← h, tInv_tSrc hperm r (by rw [prodL_tsizes hperm]; exact hr)]
+    · intro h; rw [h, tSrc_tInv hperm c hc]
+  exact ⟨gather_wf _ _ _ hsrc,
+    gather_perm_unitary hc1 (prodL sizes) (tSrc sizes perm) (tInv sizes perm) hinv hsrc hinvlt x i hi⟩
+
+-- non-vacuity: a 3-cycle of three sub-domains
+example : ([2, 0, 1] : List Nat).Perm (List.range [2, 3, 4].length) := by decide
+
+/-- TransposeOperator on two sub-domains of sizes `a`, `b` (indices (1,0)), in explicit index arithmetic
     (The general n-sub-domain statement follows from `gather_perm_unitary` once the source map is shown
     bijective; proved here for the 2-sub-domain case, all sizes.) -/
 theorem transpose2_inverse_partial {cj : K → K} (hc1 : cj 1 = 1) (a b : Nat) (x : Nat → K) (i : Nat) (hi : i < a * b) :
